@@ -5,6 +5,7 @@ import (
 	"context"
 	"errors"
 	"fmt"
+	"io"
 	"math"
 	"net/http"
 	"runtime"
@@ -28,7 +29,7 @@ func c09Msg(id uint64, size int, squeeze bool) *gen.Msg {
 }
 
 func c09(run *ev.Run) int {
-	run.SetRule("limit cases = N in {2,10,100,1000,65536,131072} (thorough: 13 values from 1 to 1 MiB; plus limits at the top of the integer range, under which everything must be delivered) x encoded size in {N-1,N,N+1,10N} (exact, proto codec; JSON sampled) x {identity, gzip} x position {first,middle,last} of a 3-message stream (or the single unary message) x 3 protocols x 4 kinds x {handler-side limit, client-side limit}; hostile cases = lying prefixes (2^32-1, 2^31, N+1 declared with 3 bytes present; <=N declared with fewer present), 32 MiB envelopes with reserved flags, 64/256 MiB gzip bombs (as data messages, as compressed Connect end-of-stream messages and gRPC-Web trailer frames, as error bodies of non-200 responses to unary and streaming calls), valid small bodies under a Content-Length unrelated to them (2^62 ... unknown), each measured alone on one goroutine with runtime.MemStats.TotalAlloc; oracle: delivered <=> encoded size <= N (wire and decompressed; raw<=N<wire is either), failing call has invalid_argument/resource_exhausted, earlier messages delivered and none after, allocation for one message <= 16N + slack; distinct by (N, size class, compression class, position, protocol, kind, side)")
+	run.SetRule("limit cases = N in {2,10,100,1000,65536,131072} (thorough: 13 values from 1 to 1 MiB; plus limits at the top of the integer range, under which everything must be delivered) x encoded size in {N-1,N,N+1,10N} (exact, proto codec; JSON sampled) x {identity, gzip} x position {first,middle,last} of a 3-message stream (or the single unary message) x 3 protocols x 4 kinds x {handler-side limit, client-side limit}; hostile cases = lying prefixes (2^32-1, 2^31, N+1 declared with 3 bytes present; <=N declared with fewer present), 32 MiB envelopes with reserved flags, 64/256 MiB gzip bombs and 6-byte bombs of a registered run-length algorithm (as data messages, as compressed Connect end-of-stream messages and gRPC-Web trailer frames, as error bodies of non-200 responses to unary and streaming calls), valid small bodies under a Content-Length unrelated to them (2^62 ... unknown), each measured alone on one goroutine with runtime.MemStats.TotalAlloc; oracle: delivered <=> encoded size <= N (wire and decompressed; raw<=N<wire is either), failing call has invalid_argument/resource_exhausted, earlier messages delivered and none after, allocation for one message <= 16N + slack; distinct by (N, size class, compression class, position, protocol, kind, side)")
 	Ns := []int{2, 10, 100, 1000, 65536, 131072}
 	if !run.Quick() {
 		Ns = []int{1, 2, 3, 10, 50, 100, 500, 1000, 4096, 65535, 65536, 131072, 1 << 20}
@@ -402,6 +403,47 @@ func c09Hostile(run *ev.Run) {
 			}
 		}
 	}
+	// A registered algorithm need not be DEFLATE: a run-length scheme turns a
+	// few bytes into as much as it says. The limit on the decompressed size (and
+	// the allocation bound) holds for whatever algorithm the application plugs in.
+	if !run.Replaying() || strings.Contains(run.ReplayKey(), "/rle-bomb/") {
+		rleD := func() connect.Decompressor { return &rleDecompressor{} }
+		rleC := func() connect.Compressor { return &rleCompressor{} }
+		for _, protocol := range svc.Protocols {
+			for _, total := range []uint32{N + 1, 64 << 20} {
+				key := fmt.Sprintf("c09/hostile/rle-bomb/handler/%s/inflates-to=%d", protocol, total)
+				if !run.Want(key) {
+					continue
+				}
+				bomb := []byte{'Z', byte(total >> 24), byte(total >> 16), byte(total >> 8), byte(total), 0}
+				reg := svc.NewRegistry()
+				reg.Default = drainProgram()
+				hs := svc.Handlers(reg, connect.WithReadMaxBytes(N), connect.WithCompression("zz-rle", rleD, rleC), connect.WithCompressMinBytes(1<<30)) // (responses stay uncompressed: the reference decoder does not know zz-rle)
+				kind := svc.ClientStream
+				ct := contentType(protocol, "proto", kind)
+				encH, _ := encHeaders(protocol, kind)
+				hdr := http.Header{"Content-Type": {ct}}
+				hdr.Set(encH, "zz-rle")
+				body := frame(1, uint32(len(bomb)), bomb)
+				var res *wire.Result
+				delta := measure(func() {
+					rw := wire.NewRecorder()
+					hs[kind].ServeHTTP(rw, wire.ServerRequest(context.Background(), "POST", kind.Path(), hdr, &wire.ScriptedBody{Data: body}, 2))
+					res = rw.Finish()
+				})
+				run.Count("alloc.measured", 1)
+				run.Eval(fmt.Sprintf("hostile|handler|%s|rle-bomb|%d", protocol, total))
+				d := refcodec.DecodeResponse(protocol, true, res.Status, res.Header, res.Body, res.Trailer, svc.RefAlgos())
+				detail := map[string]any{"protocol": protocol, "wire_bytes": len(bomb), "inflates_to": total, "N": N, "allocated": delta, "bound": bound}
+				if delta > bound {
+					run.Violation(key+"/allocation", fmt.Sprintf("a %d-byte message of a run-length algorithm that inflates to %d bytes made the handler allocate %d bytes with a read limit of %d (bound %d)", len(bomb), total, delta, N, bound), detail)
+				}
+				if d.Err == nil {
+					run.Violation(key+"/accepted", fmt.Sprintf("a message that decompresses to %d bytes was accepted under a read limit of %d", total, N), detail)
+				}
+			}
+		}
+	}
 	// A declared Content-Length that has nothing to do with the (small, valid)
 	// body must not size anything: with a read limit N the receiver stays under
 	// the same allocation bound, and it never panics.
@@ -551,3 +593,65 @@ func c09HugeLimits(run *ev.Run) {
 		}
 	}
 }
+
+// rleDecompressor: "zz-rle" = 'Z' + 4-byte big-endian count + one byte, meaning
+// that byte repeated count times. It produces its output lazily, so whatever is
+// allocated for it is the receiver's doing.
+type rleDecompressor struct {
+	left int64
+	b    byte
+	err  error
+}
+
+func (d *rleDecompressor) Reset(r io.Reader) error {
+	raw, err := io.ReadAll(io.LimitReader(r, 16))
+	d.left, d.err = 0, nil
+	if err != nil {
+		d.err = err
+		return err
+	}
+	if len(raw) == 0 {
+		return nil // parked
+	}
+	if len(raw) != 6 || raw[0] != 'Z' {
+		d.err = errors.New("zz-rle: bad header")
+		return d.err
+	}
+	d.left = int64(raw[1])<<24 | int64(raw[2])<<16 | int64(raw[3])<<8 | int64(raw[4])
+	d.b = raw[5]
+	return nil
+}
+
+func (d *rleDecompressor) Read(p []byte) (int, error) {
+	if d.err != nil {
+		return 0, d.err
+	}
+	if d.left == 0 {
+		return 0, io.EOF
+	}
+	n := len(p)
+	if int64(n) > d.left {
+		n = int(d.left)
+	}
+	for i := 0; i < n; i++ {
+		p[i] = d.b
+	}
+	d.left -= int64(n)
+	return n, nil
+}
+
+func (d *rleDecompressor) Close() error { return nil }
+
+// rleCompressor never compresses anything the checks look at (responses are
+// small); it writes a run of zero bytes for whatever it is given.
+type rleCompressor struct {
+	w io.Writer
+	n int
+}
+
+func (c *rleCompressor) Write(p []byte) (int, error) { c.n += len(p); return len(p), nil }
+func (c *rleCompressor) Close() error {
+	_, err := c.w.Write([]byte{'Z', byte(c.n >> 24), byte(c.n >> 16), byte(c.n >> 8), byte(c.n), 0})
+	return err
+}
+func (c *rleCompressor) Reset(w io.Writer) { c.w, c.n = w, 0 }
